@@ -132,6 +132,53 @@ def gen_line_curve(ctx, count):
     return out
 
 
+def _lc_job(pair):
+    return io.line_curve(pair[0], pair[1])
+
+
+def gen_line_curve_boxes(ctx, count):
+    """segments placed relative to the control box of the curve: END (or start) strictly inside the box, the other end outside on
+    each of the four sides with its other coordinate inside or outside the box's range; both directions; certified by Sturm
+    isolation in a process pool.  (The box-versus-segment test of the pipeline is only reachable this way in the compiled code.)"""
+    import multiprocessing as mp
+    rng = ctx.rng
+    cand = []
+    for _ in range(3 * count):
+        n = rng.randint(2, 5)
+        curve = rand_curve(rng, n, 4, 1)
+        l, r_ = min(curve[0]), max(curve[0])
+        b, t = min(curve[1]), max(curve[1])
+        if l == r_ or b == t:
+            continue
+        inside = (l + (r_ - l) * F(rng.randint(1, 7), 8), b + (t - b) * F(rng.randint(1, 7), 8))
+        side = rng.choice(["left", "right", "below", "above"])
+        off = F(rng.randint(1, 8), 4)
+        span = lambda lo, hi: rng.choice([lo - F(rng.randint(1, 6), 4), lo + (hi - lo) * F(rng.randint(0, 8), 8), hi + F(rng.randint(1, 6), 4)])
+        if side == "left":
+            outside = (l - off, span(b, t))
+        elif side == "right":
+            outside = (r_ + off, span(b, t))
+        elif side == "below":
+            outside = (span(l, r_), b - off)
+        else:
+            outside = (span(l, r_), t + off)
+        p0, p1 = (outside, inside) if rng.random() < 0.5 else (inside, outside)
+        line = [[p0[0], p1[0]], [p0[1], p1[1]]]
+        if not all(F(float(x)) == x for r in line for x in r):
+            continue
+        cand.append((line, curve, side))
+    with mp.Pool(16) as pool:
+        res = pool.map(_lc_job, [(a, b) for a, b, _ in cand], chunksize=8)
+    out = []
+    for (line, curve, side), exp in zip(cand, res):
+        if exp is None or len(out) >= count:
+            continue
+        swap = rng.random() < 0.5
+        out.append({"c1": curve if swap else line, "c2": line if swap else curve,
+                    "expected": [(s, t) for (t, s) in exp] if swap else list(exp), "kind": "line-curve:box-" + side})
+    return out
+
+
 def gen_planted(ctx, count):
     """general degree pairs with a planted crossing B1(a) = B2(b) (a, b dyadic): at least that one must be real"""
     rng = ctx.rng
